@@ -57,7 +57,10 @@ KeysPrefix == <<[t |-> "Open", w |-> "w1", q |-> "p1"],
                 [t |-> "NextAddr", w |-> "w1", s |-> "s1", b |-> 1, n |-> 2],
                 [t |-> "GenKey", w |-> "w1", s |-> "s1"],
                 [t |-> "Export", w |-> "w1", s |-> "s1", p |-> "q1", f |-> "f1"],
-                [t |-> "Open", w |-> "w2", q |-> "p2"]>>
+                [t |-> "Open", w |-> "w2", q |-> "p2"],
+                \* the second wallet has a keystore of its own under another private passphrase: an import there is where
+                \* "one private passphrase governs all keystores" is at stake
+                [t |-> "NewKs", w |-> "w2", p |-> "q2", s |-> "s2", r |-> ""]>>
 \* fault focus, second start: a wallet that already holds two keystores (the calls that span several keystores are where a
 \* fault can leave a partial effect)
 TwoKsPrefix == <<[t |-> "Open", w |-> "w1", q |-> "p1"],
